@@ -137,7 +137,11 @@ inductive AVerdict where
 def stepCheckA (a : ACfg) (cfg : Cfg) (st : State) (t : Int) (dsts : List Pos)
     (labels? : Option (List Nat)) : AVerdict :=
   let nets := stepNets cfg st t dsts
-  if cappedB cfg st t dsts then .capped else
+  -- `numba_link` (strategies numba / hybrid) raises SubnetOversizeException for a source with more
+  -- than 9 forward candidates (null candidate included); adaptive_link_wrap treats that like an
+  -- oversize group.  Such steps are outside this monitor's domain (verdict `capped`, no claim).
+  if cappedB cfg st t dsts ||
+      (cfg.numbaCap && nets.any (fun n => n.srcs.any (fun s => decide (s.2.length ≥ 9)))) then .capped else
   let plans := nets.map (fun n => (n, plan a cfg.B 64 0 n))
   let raises := plans.any (fun x => x.2.isNone)
   match labels? with
